@@ -184,6 +184,29 @@ func KnownSig(property, sig string) bool {
 // still open; generators use it to steer around the region by construction.
 func Known(property, sig string) bool { return KnownSig(property, sig) }
 
+// KnownPrefix reports whether an open finding of the property has a signature
+// (pattern) starting with prefix; generators use it to keep a whole region
+// (e.g. one catalogue type) out of the search by construction.
+func KnownPrefix(property, prefix string) bool {
+	knownOnce.Do(loadKnown)
+	for _, f := range known {
+		if f.Status == "known" && f.Property == property && strings.HasPrefix(f.Signature, prefix) {
+			return true
+		}
+	}
+	return false
+}
+
+// Excluded counts a generator decision that was redirected because of an open
+// finding (reported in evidence as excluded_by_known_finding).
+func Excluded(name string) {
+	mu.Lock()
+	excluded[name]++
+	mu.Unlock()
+}
+
+var excluded = map[string]int{}
+
 func matchSig(pat, sig string) bool {
 	if strings.HasSuffix(pat, "*") {
 		return strings.HasPrefix(sig, strings.TrimSuffix(pat, "*"))
@@ -453,8 +476,9 @@ func flush() {
 	type out struct {
 		Subs       []*subStats         `json:"subs"`
 		Nontrivial map[string][]string `json:"nontrivial"`
+		Excluded   map[string]int      `json:"excluded"`
 	}
-	o := out{Nontrivial: map[string][]string{}}
+	o := out{Nontrivial: map[string][]string{}, Excluded: excluded}
 	sort.Strings(order)
 	for _, name := range order {
 		st := stats[name]
